@@ -51,6 +51,13 @@ CLAIMED = {
             "are compared with a reference computed from the configs and the rulebook structure.",
             "Trusted: mc/ref/rb.py rule selection; the small readers of the signed formats in the check.",
             "DESIGN.md §3 C03"),
+    "C08": ("bounded-exhaustive enumeration: ordering rulebooks x all (old,new) patches of a fixed rulebook against a reference rank; shipped corpus x deleted unchanged rows; all vendors x forests through order_config",
+            "Every ordering rulebook of a grammar (<=3 disjoint sibling rules, nesting, %order_reverse pins, %global) against every patch the "
+            "real pipeline yields over a complete config universe: sibling order must respect the reference rank, removal precedes re-creation, "
+            "the command multiset does not depend on the ordering rulebook; on the shipped corpus deleting an unchanged line keeps the relative "
+            "order; order_config only permutes, is idempotent and keeps unmentioned rows in order, for all 14 vendors.",
+            "Trusted: reference rank in the check (rules numbered from 1); disjoint-language ordering rulebooks.",
+            "DESIGN.md §3 C08"),
     "C09": ("bounded-exhaustive enumeration of PatchTrees (synthetic forests and real make_patch outputs) x vendors x commit/finalize flags; displayed patch, cmd_paths and apply_deploy_rulebook compared line by line; deploy-rule parameters against a reference chain matcher",
             "All PatchTree forests up to 4-5 nodes over per-vendor alphabets (with the formatters' special block heads) for 10 block-structured "
             "and 3 flattening vendors, all PatchTrees the real make_patch yields over small grammar universes, and generated deploy "
@@ -58,6 +65,12 @@ CLAIMED = {
             "the parameters of the rule chain matching its path.",
             "Trusted: wrapper table and reference flattening in the check; distinct sibling rows in synthetic trees; XPL bodies well-formed (syntactic rule in the check).",
             "DESIGN.md §3 C09"),
+    "C10": ("bounded-exhaustive enumeration of generator programs (ASTs over yield/tuple/multi-line/block/block_if/multiblock) x per-generator ACLs, 1-3 generators, through the real _old_new_per_device",
+            "Every program up to 3-4 nodes becomes a real PartialGenerator; sets of generators with ACLs from a small grammar run through the "
+            "production composition; outcome (GeneratorError / AclNotExclusiveError / merged config) must equal a reference interpreter plus "
+            "reference ACL cover and exclusivity.",
+            "Trusted: reference interpreter in the check, mc/ref/acl.py; stubbed context (config='empty', no implicit rules, no filter ACL).",
+            "DESIGN.md §3 C10"),
     "C12": ("stateless model checking of the real annet.parallel under a controlled scheduler on virtual processes/queues: all interleavings with state de-duplication, plus preemption-bounded DFS",
             "The unmodified Parallel.irun/run, _check_children and _pool_worker run on virtual multiprocessing primitives; every "
             "scheduling decision (worker steps, feeder flushes, process exits, parent polls) is enumerated. Small configurations "
